@@ -18,6 +18,9 @@ R20.d  no stale figures: ``GanttChartCreator.plot_gantt_chart`` plots the
        dispatcher's current schedule on every call.
 R20.e  time axis: ends at the requested limit if given, else at the
        schedule's makespan; the last tick is that value.
+R20.f  no function of these modules modifies the object of a mutable default
+       argument (directly, through a local alias, or with ``+=``): the result
+       of a call must not depend on earlier calls.
 """
 
 from __future__ import annotations
@@ -38,6 +41,7 @@ MANIFEST = {
         "and plotting the dispatcher's schedule, saved under index k; the "
         "creator never returns a cached figure; the axis ends at the makespan "
         "or requested limit. Not decided: pixel/tick values."
+        " Also decided: no function of these modules accumulates into a mutable default argument."
     ),
     "note": "matplotlib / imageio semantics are trusted.",
     "technique": "writer/reader format agreement (pad width vs sort key) + loop-shape and def-use matching + return-path must-call",
@@ -184,6 +188,17 @@ def _by_role(ctx, module_suffix, pred, what, prefer=None):
             continue
         if any(pred(n) for n in own_nodes(fi.node)):
             cands.append(fi)
+    if not cands:
+        # the helper may have been moved to a sibling module of the same
+        # sub-package that the anchored module imports from
+        home = [m for m in ctx.repo.modules.values() if m.name.endswith(module_suffix)]
+        srcs = {src for m in home for (src, _a) in m.imports.values()}
+        pkgs = {m.name.rsplit(".", 1)[0] for m in home}
+        for fi in ctx.repo.all_functions():
+            if isinstance(fi.node, ast.Lambda) or fi.cls is not None:
+                continue
+            if fi.module.name in srcs and fi.module.name.rsplit(".", 1)[0] in pkgs and any(pred(n) for n in own_nodes(fi.node)):
+                cands.append(fi)
     if prefer:
         named = [f for f in cands if f.name == prefer]
         if named:
@@ -326,6 +341,9 @@ def _legend_labels(ctx):
 
 def run(ctx):
     chk, repo = ctx.chk, ctx.repo
+    from .common import check_mutable_defaults
+
+    check_mutable_defaults(ctx, "R20.f", ("job_shop_lib.visualization",), "the visualisation")
     for rid, txt in (
         ("R20.a", "frame writer/reader order agreement for any number of frames"),
         ("R20.b", "one single-range broken_barh per scheduled operation; row from machine index; same colour for bar and legend"),
